@@ -4,6 +4,7 @@ import (
 	"encoding/binary"
 	"encoding/json"
 	"fmt"
+	"strings"
 	"testing"
 
 	"pgregory.net/rapid"
@@ -125,6 +126,15 @@ func runC12(c c12Case) (*ev.Violation, string) {
 		return false
 	}
 	if r.Me.BU.AcceptAll && adopted() {
+		// ... but a crash stays a crash whoever approved the proposal: the ordinary exchange for what the node now holds
+		// (PREPAREs, COMMITs, an election) is still played, and only panics are judged
+		r.CommitRound()
+		if r.W.Viol == nil {
+			r.W.Apply(sim.Action{K: "timeout", Node: r.Me.Idx})
+		}
+		if v := r.W.Viol; v != nil && strings.HasPrefix(v.Kind, "panic") {
+			return v, class + ":careless-consumer-adopted-the-input"
+		}
 		return nil, class + ":careless-consumer-adopted-the-input"
 	}
 	// afterwards the node still commits a scripted round, reacts to an election, and to UpdateState
